@@ -21,7 +21,8 @@ QuickSets ==
    sA |-> <<"pathX", "pathXY", "t1", "getB", "srv">>,
    sB |-> <<"t7", "useR1", "useR2", "t1", "srv">>,
    sC |-> <<"tagCats", "catsT", "catsU", "dogsT", "srv">>,
-   sD |-> <<"urlS1", "urlS2", "t1", "macT", "useMT">>]
+   sD |-> <<"urlS1", "urlS2", "t1", "macT", "useMT">>,
+   sE |-> <<"tnA", "tnB", "tnC", "urlA", "srv">>]
 DeepSets ==
   [s6 |-> <<"t1", "reqT", "tAny", "srv2", "srv", "infoV">>,
    s7 |-> <<"mac", "mac2", "t1", "bodyT", "tag1", "pathM">>,
@@ -43,6 +44,8 @@ SeqSet(s) == {s[i] : i \in 1..Len(s)}
 TagAsSet(t) == [t EXCEPT !.http = SeqSet(@), !.rpc = SeqSet(@)]
 AsMaps(S) == [info |-> S.info, jsight |-> S.jsight, servers |-> SeqSet(S.servers), types |-> SeqSet(S.types), enums |-> SeqSet(S.enums),
               tags |-> {TagAsSet(S.tags[i]) : i \in 1..Len(S.tags)}, inters |-> SeqSet(S.inters)]
+\* every base set is an accepted document (otherwise the property says nothing about it)
+BaseAccepted == B0.res = "ok"
 OrderIrrelevant == /\ B1.res = B0.res
                    /\ B0.res = "ok" => AsMaps(B1.skel[1]) = AsMaps(B0.skel[1])
 
